@@ -114,7 +114,11 @@ func matchSeriesKeyTagFilter(tags influx.PointTags, tf *tagFilter, tagArray bool
 
 	var re *regexp.Regexp
 	if tf.isRegexp {
-		re = regexp.MustCompile(matchValue)
+		// tf.value may hold the unescaped text of a literal regexp; compile the expression itself
+		var err error
+		if re, err = regexp.Compile(util.Bytes2str(tf.origValue)); err != nil {
+			return false
+		}
 	}
 
 	for _, tag := range tags {
